@@ -390,8 +390,8 @@ CONTRACTS["model:Population.initialize_compartments#target_of_fraction"] = dict(
            "par.interpolate(t_init, pop_name=self.name)[0]": "V", "par.y_factor[self.name]": "YF", "par.meta_y_factor": "MYF",
            "denom_par.interpolate(t_init, pop_name=self.name)[0]": "DV", "denom_par.y_factor[self.name]": "DYF", "denom_par.meta_y_factor": "DMYF"},
     requires=["0 <= i", "i < len(b)"],
-    ensures=[("C07.fraction_target_is_value_times_factors_times_calibrated_denominator", "b[i] == V * YF * MYF * (DV * DYF * DMYF)")],
-    defined_props=["C07"])
+    ensures=[("C07+C06.fraction_target_is_value_times_factors_times_calibrated_denominator", "b[i] == V * YF * MYF * (DV * DYF * DMYF)")],
+    defined_props=["C07", "C06"])
 
 
 # Characteristic.update: value = sum of the included quantities, divided by the denominator (0 for 0/0, inf for x/0)
